@@ -232,8 +232,14 @@ func (c *Ctx) loopTerminates(l *loop) string {
 			} else if f := call.Call.StaticCallee(); f != nil && f.String() == "(*encoding/json.Decoder).Token" {
 				isTok = true
 			}
-			if isTok && l.allBacksDominatedBy(b) && tokenErrorLeaves(call, l) {
+			if isTok && l.allBacksDominatedBy(b) && tokenErrorLeaves(call, l, 1) {
 				return "a decoder Token() is consumed on every iteration and its error leaves the loop: iterations are bounded by the input length"
+			}
+			// the read made by a helper of the module that hands the decoder's error on (`key, err := decodeKey(d)`)
+			if h := call.Call.StaticCallee(); !isTok && h != nil && inRepo(h) && l.allBacksDominatedBy(b) {
+				if n := h.Signature.Results().Len(); n >= 1 && isErrorType(h.Signature.Results().At(n-1).Type()) && consumesToken(origin(h)) && tokenErrorLeaves(call, l, n-1) {
+					return "a helper that consumes a decoder Token() and hands its error on is called on every iteration, and that error leaves the loop"
+				}
 			}
 		}
 	}
@@ -252,10 +258,10 @@ func (l *loop) allBacksDominatedBy(b *ssa.BasicBlock) bool {
 
 // tokenErrorLeaves: the error result of the Token call is tested against nil and the non-nil edge leaves the loop
 // (otherwise a decoder stuck at EOF would spin).
-func tokenErrorLeaves(call *ssa.Call, l *loop) bool {
+func tokenErrorLeaves(call *ssa.Call, l *loop, errIndex int) bool {
 	for _, r := range *call.Referrers() {
 		ex, ok := r.(*ssa.Extract)
-		if !ok || ex.Index != 1 {
+		if !ok || ex.Index != errIndex {
 			continue
 		}
 		for _, r2 := range *ex.Referrers() {
@@ -274,6 +280,59 @@ func tokenErrorLeaves(call *ssa.Call, l *loop) bool {
 				}
 				if !l.body[errEdge] {
 					return true
+				}
+			}
+		}
+	}
+	return false
+}
+
+// consumesToken: every call of h reads one decoder token before it returns (the read dominates every return), and a
+// failed read makes h return a non-nil error.
+func consumesToken(h *ssa.Function) bool {
+	for _, b := range h.Blocks {
+		for _, in := range b.Instrs {
+			call, ok := in.(*ssa.Call)
+			if !ok {
+				continue
+			}
+			isTok := call.Call.IsInvoke() && call.Call.Method.Name() == "Token"
+			if f := call.Call.StaticCallee(); f != nil && f.String() == "(*encoding/json.Decoder).Token" {
+				isTok = true
+			}
+			if !isTok {
+				continue
+			}
+			dominatesReturns := true
+			for _, rb := range h.Blocks {
+				if _, isRet := rb.Instrs[len(rb.Instrs)-1].(*ssa.Return); isRet && !(b == rb || b.Dominates(rb)) {
+					dominatesReturns = false
+				}
+			}
+			if !dominatesReturns {
+				continue
+			}
+			for _, r := range *call.Referrers() {
+				ex, ok := r.(*ssa.Extract)
+				if !ok || ex.Index != 1 {
+					continue
+				}
+				for _, r2 := range *ex.Referrers() {
+					bo, ok := r2.(*ssa.BinOp)
+					if !ok || !isNilConst(bo.Y) {
+						continue
+					}
+					for _, r3 := range *bo.Referrers() {
+						if iff, ok := r3.(*ssa.If); ok {
+							errEdge := iff.Block().Succs[0]
+							if bo.Op == token.EQL {
+								errEdge = iff.Block().Succs[1]
+							}
+							if leadsOnlyToErrors(errEdge) {
+								return true
+							}
+						}
+					}
 				}
 			}
 		}
